@@ -178,19 +178,24 @@ Lemma words_loop_ge : forall fuel hi tord nt maxw st st',
   words_loop P fuel hi tord nt maxw st = Done st' -> ts_idx st <= ts_idx st'.
 Proof.
   induction fuel as [|f IH]; intros hi tord nt maxw st st' H; cbn [words_loop] in H; [discriminate|].
-  destruct (ts_idx st <? hi); [|inversion H; subst; lia].
+  destruct (ts_idx st <? hi) eqn:Ehi; [|injection H as <-; apply N.le_refl].
+  apply N.ltb_lt in Ehi.
   apply bind_inv in H as (w & _ & H). apply bind_inv in H as ([spans1 full1] & _ & H).
-  apply bind_inv in H as (ck & _ & H). apply bind_inv in H as ([[[spans2 idx2] ck2] full2] & Hcg & H).
+  apply bind_inv in H as (ck & _ & H).
+  apply bind_inv in H as ([[[[spans2 idx2] ck2] full2] extra] & Hcg & H).
   assert (Hidx : ts_idx st + 1 <= idx2).
-  { destruct (SPAN_CAP <=? N.of_nat (length spans1)).
+  { clear H IH. destruct (SPAN_CAP <=? N.of_nat (length spans1)).
     - destruct (SPAN_CAP <=? N.of_nat (length (compact spans1 maxw))).
       + apply bind_inv in Hcg as (g & Hg & Hcg). apply give_up_ge in Hg.
-        inversion Hcg; subst. destruct (fst g); lia.
-      + inversion Hcg; subst. lia.
-    - inversion Hcg; subst. lia. }
+        apply bind_inv in Hcg as (ex & _ & Hcg).
+        injection Hcg as _ Hi _ _ _. rewrite <- Hi. clear Hi.
+        destruct (fst g) as [i'|]; [exact Hg|]. clear -Ehi. lia.
+      + injection Hcg as _ Hi _ _ _. rewrite <- Hi. apply N.le_refl.
+    - injection Hcg as _ Hi _ _ _. rewrite <- Hi. apply N.le_refl. }
+  clear Hcg Ehi.
   destruct (negb (ck2 =? ts_curr_key st)).
-  - inversion H; subst. cbn [ts_idx]. lia.
-  - apply IH in H. cbn [ts_idx] in H. lia.
+  - injection H as <-. cbn [ts_idx]. clear -Hidx. lia.
+  - apply IH in H. cbn [ts_idx] in H. clear -Hidx H. lia.
 Qed.
 
 Lemma terms_loop_inv : forall lens idxs tord nt maxw dk spans full lk sums ap idxs' sp' f' lk' sums' ap',
